@@ -17,7 +17,9 @@ Definition C07_statement : Prop :=
   /\ (forall c t atc cur, y_hostvar_read c t atc cur = g_var_read cur)
   /\ (forall w t atc old new, okv t new -> val_eqb (y_hostvar_write w t atc old new) (g_var_write new) = true)
   /\ (forall f vp np na, y_method_outcome f vp np na = None)
-  /\ (forall p sm q, y_host_sees p sm q = g_host_sees sm q).
+  /\ (forall p sm q, y_host_sees p sm q = g_host_sees sm q)
+  /\ (forall f over del methods, y_dispatch f over del methods = g_dispatch over del methods)
+  /\ (forall h, y_session true h = g_session h).
 
 (** One value, both directions: what the script reads of a host value is the value; what the host
     reads of a script value is the value (functions: the same graph). Induction over nested graphs. *)
@@ -119,6 +121,34 @@ Theorem C07_wrapper_partial :
 Proof. exact wrapper_agree. Qed.
 Print Assumptions C07_wrapper_partial.
 
+(** Script types embedding host interfaces / host types, handed over as a host interface: for all
+    reflect facts, override sets and method lists, every method the host calls runs the
+    implementation Go's method sets select. *)
+Theorem C07_embedded_partial :
+  forall f over del methods, embed_side f over methods = true ->
+    y_dispatch f over del methods = g_dispatch over del methods.
+Proof. exact embedded_agree. Qed.
+Print Assumptions C07_embedded_partial.
+
+Theorem C07_embedded_side_condition_inhabited :
+  embed_side f_val_only_iface [s "Len"; s "Less"; s "Swap"] [s "Len"; s "Less"; s "Swap"] = true
+  /\ embed_side f_ptr_last [s "Less"] [s "Len"; s "Less"; s "Swap"] = true
+  /\ y_dispatch f_ptr_last [s "Less"] true [s "Len"; s "Less"; s "Swap"] = ([WHost; WBoth; WHost], false).
+Proof. exact embed_side_inhabited. Qed.
+Print Assumptions C07_embedded_side_condition_inhabited.
+
+(** A function value kept by the host: for all histories of evaluations (succeeding, panicking,
+    failing to compile, cancelled) and native calls, every native call gives the function's results —
+    provided no call falls between a cancellation and the next evaluation that reaches Execute. *)
+Theorem C07_session_partial :
+  forall h live, guarded live h = true -> y_session live h = g_session h.
+Proof. exact session_agree. Qed.
+Print Assumptions C07_session_partial.
+
+Theorem C07_session_side_condition_inhabited : guarded true h_ok = true /\ y_session true h_ok = [OOk; OOk; OOk].
+Proof. exact guarded_inhabited. Qed.
+Print Assumptions C07_session_side_condition_inhabited.
+
 (** Refutations of the full statement on the faithful model (each replayed on the implementation). *)
 Theorem C07_variadic_empty_refuted :
   y_bind S2H cx0 ins_v true MInd [VStr (s "a")] = [VStr (s "a"); VSlice []]
@@ -134,11 +164,14 @@ Theorem C07_defer_spread_refuted :
 Proof. exact defer_spread_refuted. Qed.
 Print Assumptions C07_defer_spread_refuted.
 
-Theorem C07_defer_callback_refuted :
-  y_bind S2H cx_deferred_hold [t_cb] false MPlain [v_cb] = [VBad (s "timeout")]
-  /\ g_bind [t_cb] false MPlain [v_cb] = [v_cb].
-Proof. exact defer_callback_refuted. Qed.
-Print Assumptions C07_defer_callback_refuted.
+(** Regression (was C07_defer_callback_refuted until abe7a69): a deferred host call that calls back a
+    closure held in a variable binds its arguments like any other call. *)
+Theorem C07_defer_callback_regression :
+  bind_side S2H cx_deferred [t_cb] false MPlain [v_cb] = true
+  /\ vals_eqb (y_bind S2H cx_deferred [t_cb] false MPlain [v_cb]) (g_bind [t_cb] false MPlain [v_cb]) = true
+  /\ call (hd VNil (y_bind S2H cx_deferred [t_cb] false MPlain [v_cb])) [VInt 2] = [VStr (s "two")].
+Proof. exact defer_callback_regression. Qed.
+Print Assumptions C07_defer_callback_regression.
 
 Theorem C07_negzero_refuted :
   y_bind S2S cx0 [TFloat 64; TInt 64] false MPlain [neg0; VInt 42] = [VFloat 0; VInt 42]
@@ -197,3 +230,26 @@ Theorem C07_iface_uncomparable_refuted :
   y_host_sees PErrorParam [s "Error"] WComparable = false /\ g_host_sees [s "Error"] WComparable = true.
 Proof. exact iface_uncomparable_refuted. Qed.
 Print Assumptions C07_iface_uncomparable_refuted.
+
+Theorem C07_embedded_unwrapped_pointer_refuted :
+  y_dispatch f_ptr_only_compiled [s "Write"] false [s "Write"] = ([WHost], false)
+  /\ g_dispatch [s "Write"] false [s "Write"] = ([WScript], false).
+Proof. exact embedded_unwrapped_pointer_refuted. Qed.
+Print Assumptions C07_embedded_unwrapped_pointer_refuted.
+
+Theorem C07_embedded_promoted_stub_refuted :
+  y_dispatch f_val_only_iface [s "Len"] false [s "Len"; s "Less"; s "Swap"] = ([WScript; WNone; WNone], true)
+  /\ g_dispatch [s "Len"] false [s "Len"; s "Less"; s "Swap"] = ([WScript; WHost; WHost], false).
+Proof. exact embedded_promoted_stub_refuted. Qed.
+Print Assumptions C07_embedded_promoted_stub_refuted.
+
+Theorem C07_embedded_first_by_value_refuted :
+  y_dispatch f_val_first [] false [s "Read"] = ([WNone], true)
+  /\ g_dispatch [] false [s "Read"] = ([WHost], false).
+Proof. exact embedded_first_by_value_refuted. Qed.
+Print Assumptions C07_embedded_first_by_value_refuted.
+
+Theorem C07_after_cancel_before_eval_refuted :
+  y_session true h_dead = [OOk; OZero; OZero; OOk] /\ g_session h_dead = [OOk; OOk; OOk; OOk].
+Proof. exact after_cancel_before_eval_refuted. Qed.
+Print Assumptions C07_after_cancel_before_eval_refuted.
